@@ -14,7 +14,7 @@ def load(p):
 def row(name, prop, what, res):
     own = res["results"].get(prop, {})
     killed = own.get("rc") == 1
-    also = sorted(p for p, x in res["results"].items() if x.get("rc") == 1 and p != prop)
+    also = sorted(p for p, x in res["results"].items() if x.get("rc") == 1 and p != prop and not (p == "C03" and res.get("base")))
     orc = ", ".join(o for o in own.get("oracles", []) if not o.startswith("VIOLATION"))
     what = what.replace("|", "/").replace("\n", " ")
     if len(what) > 230:
